@@ -172,7 +172,10 @@ func shortPkg(path string) string {
 
 // verifyFunc generates the obligations of one function under one profile.
 func (e *Engine) verifyFunc(pkg *packages.Package, decl *ast.FuncDecl, profile string) (err error) {
-	fn := pkg.TypesInfo.Defs[decl.Name].(*types.Func)
+	fn, _ := pkg.TypesInfo.Defs[decl.Name].(*types.Func)
+	if fn == nil {
+		fn = e.litFuncs[decl]
+	}
 	pp, key := funcKey(fn)
 	c := e.contractFor(pp, key)
 	fc := &FuncCtx{
@@ -429,6 +432,26 @@ func (fc *FuncCtx) entryState() *State {
 	}
 	for i := 0; i < fc.sig.Params().Len(); i++ {
 		bind(fc.sig.Params().At(i))
+	}
+	// a function literal verified on its own: the variables it captures are additional parameters
+	if lit := e.litNodes[fc.decl]; lit != nil {
+		seen := map[*types.Var]bool{}
+		ast.Inspect(lit.Body, func(n ast.Node) bool {
+			id, ok := n.(*ast.Ident)
+			if !ok {
+				return true
+			}
+			v, ok := fc.info.Uses[id].(*types.Var)
+			if !ok || v.IsField() || seen[v] || v.Parent() == fc.pkg.Types.Scope() || v.Pkg() != fc.pkg.Types {
+				return true
+			}
+			if v.Pos() >= lit.Pos() && v.Pos() <= lit.End() {
+				return true // declared inside the literal
+			}
+			seen[v] = true
+			bind(v)
+			return true
+		})
 	}
 	// pointer parameters to unrelated struct types denote different objects (Go's type safety): two non-nil
 	// pointers *T and *U can only be equal if one struct is (transitively) the first embedded field of the other
